@@ -248,6 +248,7 @@ def _ca_post(st, interp, C, res):
 
 
 U_CALC_ACTIVATION = Unit("Sample.calculate_activation", ACT + ".Sample.calculate_activation", _ca_inputs, _ca_post,
+                         writes={"activity", "environment", "exposure", "rest_times"},
                          contracts={ACT + ".activity": c_activity},
                          inline={ACT + ".Sample._accumulate", "periodictable.core.isisotope", "periodictable.core.ision"},
                          replay={"module": "c14", "task": "replay"})
